@@ -84,6 +84,10 @@ pub struct Ctx {
     pub ro_digest: Option<([u8; 32], u64, Option<std::time::SystemTime>)>, // file identity when the read-only handle was opened
 }
 
+pub fn hex(b: &[u8]) -> String {
+    b.iter().map(|x| format!("{x:02x}")).collect()
+}
+
 /// "prefix-k" -> k; None -> 0; anything else -> -1
 fn meta_id(v: Option<&str>, prefix: &str) -> i64 {
     match v {
@@ -123,6 +127,27 @@ impl Ctx {
         let path = dir.path().join("m.mv2");
         let mut c = Ctx { dir, path, mem: None, ro: false, digests: HashMap::new(), embs: HashMap::new(), last_count: 0, ro_digest: None };
         c.register_payload(0, b"");
+        c
+    }
+
+    /// A context over an existing file (crash-left state) with the payload registry of the run that produced it.
+    pub fn at(dir: tempfile::TempDir, path: PathBuf, registry: &Value) -> Ctx {
+        let mut c = Ctx { dir, path, mem: None, ro: false, digests: HashMap::new(), embs: HashMap::new(), last_count: 0, ro_digest: None };
+        if let Some(m) = registry["digests"].as_object() {
+            for (k, v) in m {
+                let mut d = [0u8; 32];
+                for i in 0..32 {
+                    d[i] = u8::from_str_radix(&k[2 * i..2 * i + 2], 16).unwrap_or(0);
+                }
+                c.digests.insert(d, v.as_i64().unwrap_or(-1));
+            }
+        }
+        if let Some(a) = registry["embs"].as_array() {
+            for e in a {
+                let bits: Vec<u32> = e["bits"].as_array().map(|b| b.iter().map(|x| x.as_u64().unwrap_or(0) as u32).collect()).unwrap_or_default();
+                c.embs.insert(bits, e["id"].as_i64().unwrap_or(-1));
+            }
+        }
         c
     }
 
@@ -743,6 +768,12 @@ pub fn run(args: &[String]) -> i32 {
             let ev = json!({"ev": name, "run": sid, "n": n + 1, "args": op, "res": res, "x": extra,
                             "nfid_before": nfid_before, "obs": obs});
             writeln!(out, "{}", crate::util::strip_nulls(ev)).unwrap();
+        }
+        if let Ok(rp) = std::env::var("MVH_REGISTRY_OUT") {
+            // payload / embedding registry of this run, for `disk-probe` (digest hex -> id, embedding bits -> id)
+            let d: serde_json::Map<String, Value> = ctx.digests.iter().map(|(k, v)| (hex(k), json!(v))).collect();
+            let e: Vec<Value> = ctx.embs.iter().map(|(k, v)| json!({"bits": k, "id": v})).collect();
+            std::fs::write(rp, json!({"digests": d, "embs": e}).to_string()).expect("write registry");
         }
         // leave no handle behind
         let m = ctx.mem.take();
